@@ -154,6 +154,26 @@ func hasBuildIgnore(f *ast.File) bool {
 	return false
 }
 
+// statefulStd: standard-library types documented as stateful and not safe for concurrent use. Any use of a
+// field of such a type (a method call on it, handing it to a local variable that is then used) mutates
+// the object behind it, so it is reported as a write.
+var statefulStd = map[string]bool{"hash.Hash": true, "hash.Hash32": true, "hash.Hash64": true, "bytes.Buffer": true, "strings.Builder": true, "rand.Rand": true,
+	"bufio.Reader": true, "bufio.Writer": true, "bufio.Scanner": true, "json.Encoder": true, "json.Decoder": true, "cipher.Stream": true, "cipher.BlockMode": true}
+
+func isStatefulType(e ast.Expr) bool {
+	if st, ok := e.(*ast.StarExpr); ok {
+		e = st.X
+	}
+	if se, ok := e.(*ast.SelectorExpr); ok {
+		if id, ok := se.X.(*ast.Ident); ok {
+			return statefulStd[id.Name+"."+se.Sel.Name]
+		}
+	}
+	return false
+}
+
+var statefulFields = map[string]bool{} // "T.F"
+
 // collectStructs: struct name -> field name -> isLock
 func collectStructs(files map[string]*ast.File) map[string]map[string]bool {
 	res := map[string]map[string]bool{}
@@ -179,6 +199,9 @@ func collectStructs(files map[string]*ast.File) map[string]map[string]bool {
 					}
 					for _, n := range fld.Names {
 						m[n.Name] = isLock
+						if isStatefulType(fld.Type) {
+							statefulFields[ts.Name.Name+"."+n.Name] = true
+						}
 					}
 				}
 				res[ts.Name.Name] = m
@@ -295,6 +318,9 @@ func (a *accessRewriter) block(list []ast.Stmt) {
 		acc := map[string]bool{} // field -> write
 		var order []string
 		note := func(f string, w bool) {
+			if statefulFields[a.tname+"."+f] {
+				w = true
+			}
 			if old, ok := acc[f]; ok {
 				acc[f] = old || w
 				return
